@@ -65,7 +65,7 @@ func (f *File) Apply(filename string, src []byte) ([]byte, error) {
 		}
 
 		snap = snap.Diff(fout, cl)
-		cleanupFilePos(f.fset.File(fout.Pos()), cl, fout.Comments)
+		fout.Comments = cleanupFilePos(f.fset.File(fout.Pos()), cl, fout.Comments)
 	}
 
 	if retErr != nil {
@@ -96,7 +96,7 @@ func (f *File) Apply(filename string, src []byte) ([]byte, error) {
 	return bs, nil
 }
 
-func cleanupFilePos(tfile *token.File, cl engine.Changelog, comments []*ast.CommentGroup) {
+func cleanupFilePos(tfile *token.File, cl engine.Changelog, comments []*ast.CommentGroup) []*ast.CommentGroup {
 	linesToDelete := make(map[int]struct{})
 	for _, dr := range cl.ChangedIntervals() {
 		if dr.Start == token.NoPos {
@@ -134,4 +134,15 @@ func cleanupFilePos(tfile *token.File, cl engine.Changelog, comments []*ast.Comm
 	for i := len(lines) - 1; i >= 0; i-- {
 		tfile.MergeLine(lines[i])
 	}
+
+	// Drop the comment groups that lost all their comments. Code that
+	// walks the comments of a file, such as astutil.DeleteNamedImport,
+	// expects every group to have at least one comment.
+	kept := comments[:0:0]
+	for _, cg := range comments {
+		if len(cg.List) > 0 {
+			kept = append(kept, cg)
+		}
+	}
+	return kept
 }
